@@ -240,7 +240,12 @@ def gen_op(r, dw, weights, cfg):
         # "badlist": a list init_val of the wrong length — must be refused and leave nothing behind
         return {"op": "make_trainable", "view": view, "key": key, "init": r.choice([None, None, None, "float", "float", "list", "list", "badlist"]), "seed": seed}
     if kind == "delete_trainables":
-        return {"op": "delete_trainables", "view": []}
+        k = r.random()
+        if k < 0.5:
+            return {"op": "delete_trainables", "view": []}
+        if ref.edges and k < 0.65:
+            return {"op": "delete_trainables", "view": gen_edge_view(r, ref)}
+        return {"op": "delete_trainables", "view": gen_node_view(r, ref)}
     if kind == "connect":
         cls = r.choice(cfg["synapses"])
         name = cls[:4] + "B" if r.random() < 0.15 else None
